@@ -702,6 +702,10 @@ pub fn c06(ctx: &mut Ctx) {
                 if len > 1 && rng.chance(1, 6) {
                     t.replace_range(0..1, *rng.pick(&["\n", " ", "\r"]));
                 }
+                // a secret may itself begin with the text of the key prefix
+                if len >= 4 && (r == 2 || rng.chance(1, 8)) {
+                    t.replace_range(0..4, "AWS4");
+                }
                 t
             };
             let (y, m, d) = *rng.pick(&dates);
@@ -762,8 +766,26 @@ pub fn c06(ctx: &mut Ctx) {
     }
     // construction at other capacities: OK / TOOLONG / PANIC only
     for &m in &[0usize, 1, 2, 3, 4, 5, 6, 7, 8, 20, 43, 45, 64, 100, 1024] {
-        for len in [0usize, 1, 2, 3, 4, 5, 16, 39, 40, 41, 60, 61, 96, 97, 1020, 1021] {
-            let secret: String = (0..len).map(|_| *rng.pick(b"abcXYZ019/+=") as char).collect();
+        // lengths around the capacity (m - 4) and around m itself, for every capacity; each length once with random
+        // characters and once starting with the text "AWS4" (a secret is data: a secret that looks like an already
+        // prefixed key is still a secret of that length)
+        let mut lens: Vec<usize> = vec![0usize, 1, 2, 3, 4, 5, 16, 39, 40, 41, 60, 61, 96, 97, 1020, 1021];
+        for d in 0..=9usize {
+            lens.push((m + 2).saturating_sub(d));
+        }
+        lens.sort();
+        lens.dedup();
+        for (len, aws4) in lens.iter().flat_map(|l| [(*l, false), (*l, true)]) {
+            if aws4 && len < 4 {
+                continue;
+            }
+            let mut secret: String = (0..len).map(|_| *rng.pick(b"abcXYZ019/+=") as char).collect();
+            if aws4 {
+                secret.replace_range(0..4, if len % 2 == 0 { "AWS4" } else { "AWS4" });
+                if len >= 8 && len % 3 == 0 {
+                    secret.replace_range(4..8, "AWS4");
+                }
+            }
             let imp_out = imp::secret_from_str_m(m, &secret).unwrap();
             let spec = if m >= 4 && len <= m - 4 { "OK" } else { "TOOLONG" };
             // model answers with the full KEYS line; reduce both to the class
